@@ -77,6 +77,8 @@ NULLFAM = ['nullable', 'optional', 'allow-none', 'not nullable', 'not optional']
 ARRAY = ['array', 'array length=n', 'array fixed-size=3', 'array zero-terminated=0',
          'array zero-terminated=1', 'array zero-terminated', 'array length=n fixed-size=3',
          'array length=n zero-terminated=1', 'array fixed-size=3 zero-terminated=1',
+         # value-less option spelling (the valid form used by tests/warn/invalid-array.h): means true
+         'array zero-terminated length=n', 'array fixed-size=3 zero-terminated',
          'array length=nosuch']
 ELEMTYPE = ['element-type utf8', 'element-type gint', 'element-type FooRec', 'element-type guint8',
             'element-type utf8 gint', 'element-type GObject.Object']
@@ -85,7 +87,9 @@ TYPE = ['type gint', 'type utf8', 'type FooRec', 'type GObject.Object', 'type GL
 SCOPE = ['scope call', 'scope async', 'scope notified', 'scope forever']
 CLOSURE = ['closure ctx', 'closure', 'closure n']
 DESTROY = ['destroy dn', 'destroy n']
-OTHER = ['skip', 'attributes my.key=val', 'attributes a.b=c d.e=f']
+OTHER = ['skip', 'attributes my.key=val', 'attributes a.b=c d.e=f',
+         # values that contain '=': the value is everything after the first '='
+         'attributes x.expr=mode=fast', 'attributes x.b64=dGVzdA==', 'attributes x.url=http://h/p?a=1&b=2 x.t=v=']
 MALFORMED = ['transfer bogus', 'transfer', 'scope bogus', 'out bogus', 'array bogus',
              'array fixed-size=x', 'nosuchannotation']
 
